@@ -51,8 +51,8 @@ type c03Case struct {
 	Templates [][]*hx.N     `json:"templates"`
 	Envs      []hx.Bindings `json:"envs"`
 	Steps     []c03Step     `json:"steps"`
-	Hy        [][]bool      `json:"hy,omitempty"`  // whitespace-control hyphens per template
-	Raw       []string      `json:"raw,omitempty"` // further templates given as source text
+	Hy        [][]bool      `json:"hy,omitempty"`       // whitespace-control hyphens per template
+	Raw       []string      `json:"raw,omitempty"`      // further templates given as source text
 	RawWant   []string      `json:"raw_want,omitempty"` // what Raw[i] renders to with any environment ("" = not fixed)
 }
 
